@@ -405,7 +405,8 @@ def lattice_work(payload):
 # ------------------------------------------------------------------ histories of calls sharing arguments
 
 CALLS = ["map_thin_resdict", "map_thick_two_layers", "map_rendered", "hist2d_limits", "hist2d_rendered", "hist1d", "scatter", "plot",
-         "map_thick_default_resolution", "map_thick_partial_dict", "map_thin_other_unit", "map_normobj_unrendered", "hist2d_normobj_unrendered"]
+         "map_thick_default_resolution", "map_thick_partial_dict", "map_thin_other_unit", "map_normobj_unrendered", "hist2d_normobj_unrendered",
+         "map_layer_sets_every_option", "hist2d_layer_sets_every_option"]
 
 
 class Shared:
@@ -419,6 +420,8 @@ class Shared:
         self.L1 = self.mesh.layer("density", cmap="magma", vmin=0.5)
         self.L2 = self.mesh.layer("velocity", mode="vec")
         self.L3 = Layer(self.mesh["mass"], operation="mean", norm="log")
+        # a layer that sets mode, operation and norm itself: the calls it is given to have nothing to add to it
+        self.L6 = self.mesh.layer("mass", mode="contourf", operation="mean", norm="linear")
         self.res1 = {"x": 4}
         self.res2 = {"x": 3, "y": 3}
         self.res3 = {"x": 8, "y": 8}
@@ -430,6 +433,7 @@ class Shared:
         self.y = osyris.Array(np.array([1.0, 1.0, 1.2, 3.0, 3.0, 3.1, 2.0, 0.4]), unit="g", name="yy")
         self.w = osyris.Array(np.arange(1.0, 9.0), unit="s", name="ww")
         self.L4 = Layer(self.x, bins=5, alpha=0.5)
+        self.L7 = Layer(self.w, mode="image", operation="mean", norm="log")
         self.xmin = 0.25 * osyris.units("cm")
         self.size = osyris.Array(np.full(8, 0.1), unit="cm", name="size")
         self.extra = {"cmap": "viridis"}
@@ -453,11 +457,13 @@ class Shared:
         def sl(layer):
             return {"key": layer.key, "arrays": {k: sa(v) for k, v in layer.arrays.items()}, "mode": layer.mode, "operation": layer.operation,
                     "norm": layer.norm if isinstance(layer.norm, (str, type(None))) else type(layer.norm).__name__, "norm_limits": [repr(getattr(layer.norm, "vmin", None)), repr(getattr(layer.norm, "vmax", None))], "vmin": layer.vmin, "vmax": layer.vmax, "bins": repr(layer.bins),
-                    "weights": sa(layer.weights) if layer.weights is not None else None, "kwargs": sorted((k, repr(v)) for k, v in layer.kwargs.items())}
+                    "weights": sa(layer.weights) if layer.weights is not None else None, "kwargs": sorted((k, repr(v)) for k, v in layer.kwargs.items()),
+                    # whatever else the layer object holds (an options object, a memoised norm ...), followed into attribute objects
+                    "hidden": history.deep_hidden_state(layer, known=("key", "arrays", "mode", "operation", "norm", "vmin", "vmax", "bins", "weights", "kwargs"))}
 
         return {
             "mesh": {k: sa(v) for k, v in self.mesh.items()}, "mesh_keys": list(self.mesh.keys()),
-            "L1": sl(self.L1), "L2": sl(self.L2), "L3": sl(self.L3), "L4": sl(self.L4), "L5": sl(self.L5),
+            "L1": sl(self.L1), "L2": sl(self.L2), "L3": sl(self.L3), "L4": sl(self.L4), "L5": sl(self.L5), "L6": sl(self.L6), "L7": sl(self.L7),
             "normobj": [repr(self.normobj.vmin), repr(self.normobj.vmax)],
             "res1": sorted(self.res1.items()), "res2": sorted(self.res2.items()), "res3": sorted(self.res3.items()), "dx_m": repr(self.dx_m), "origin": sa(self.origin),
             "dx": repr(self.dx), "dz": repr(self.dz), "x": sa(self.x), "y": sa(self.y), "w": sa(self.w), "xmin": repr(self.xmin),
@@ -510,6 +516,12 @@ def do_call(name, S):
             if name == "hist2d_normobj_unrendered":
                 p = osyris.histogram2d(S.x, S.y, S.mesh["mass"], resolution=3, norm=S.normobj, vmin=2.0, vmax=7.0, plot=False)
                 return [np.asarray(p.x).tolist(), lay_data(p)]
+            if name == "map_layer_sets_every_option":
+                p = osyris.map(S.L6, direction="z", dx=S.dx * 0.5, origin=S.origin, resolution=4, plot=False)
+                return [np.asarray(p.x).tolist(), lay_data(p), [repr(getattr(l["params"].get("norm"), "vmin", None)) for l in p.layers]]
+            if name == "hist2d_layer_sets_every_option":
+                p = osyris.histogram2d(S.x, S.y, S.L7, resolution=3, plot=False)
+                return [np.asarray(p.x).tolist(), lay_data(p), [repr(getattr(l["params"].get("norm"), "vmin", None)) for l in p.layers]]
             if name == "hist2d_limits":
                 p = osyris.histogram2d(S.x, S.y, S.L3, resolution=4, xmin=S.xmin, plot=False, **S.extra)
                 return [np.asarray(p.x).tolist(), lay_data(p)]
